@@ -452,7 +452,7 @@ impl<K: KeyT, V: ValT> World<K, V> {
                 }
             }
             Op::Retain { m, pred, mutate } => self.op_retain(acc, *m as usize, pred, *mutate),
-            Op::DrainFilter { m, pred, mutate, consume } => self.op_drain_filter(acc, *m as usize, pred, *mutate, *consume),
+            Op::DrainFilter { m, pred, mutate, consume, drop_panic } => self.op_drain_filter(acc, *m as usize, pred, *mutate, *consume, *drop_panic),
             Op::Drain { m, consume } => self.op_drain(acc, *m as usize, *consume),
             Op::IntoIter { m, consume, new_cap } => self.op_into_iter(acc, *m as usize, *consume, *new_cap),
             Op::Reserve { m, n } => self.op_reserve(acc, *m as usize, *n, false, false),
